@@ -136,7 +136,7 @@ def _check_run_payload(check, an: Analysis):
         waited = None      # (index of the store, name of the local holding the event)
         finished = False
         for index, event in enumerate(events):
-            if event.fn is not fn:
+            if event.depth != 0:
                 continue
             if event.kind == 'store' and isinstance(event.get('value'), ast.Await) and \
                     '_wait_interruptible' in ast.unparse(event['value']) and \
@@ -163,7 +163,7 @@ def _check_run_payload(check, an: Analysis):
             keep = (waited[1],) if waited else ()
             args = [rules.value_text(path, index, a, keep=keep) for a in node.args]
             # the process is the active one while its generator runs
-            before = [e for e in events[:index] if e.kind == 'store' and e.fn is fn
+            before = [e for e in events[:index] if e.kind == 'store' and e.depth == 0
                       and (e['path'] or '').endswith('.active_process')]
             if not before or rules.value_text(
                     path, events.index(before[-1]), before[-1]['value']) != 'self':
@@ -179,7 +179,7 @@ def _check_run_payload(check, an: Analysis):
                     ok = kind == 'send' and args == ['%s.value' % waited[1]]
                 elif good is False:
                     ok = kind == 'throw' and args == ['%s.value' % waited[1]]
-                    defused = any(e.kind == 'store' and e.fn is fn and
+                    defused = any(e.kind == 'store' and e.depth == 0 and
                                   e['path'] == '%s.defused' % waited[1] and
                                   isinstance(e['value'], ast.Constant) and
                                   e['value'].value is True for e in events[since:index])
@@ -195,13 +195,13 @@ def _check_run_payload(check, an: Analysis):
             rest = events[index + 1:]
             if exit_cls == 'normal':
                 # what the generator yields becomes the target and the next event to wait for
-                stored = [e for e in rest[:4] if e.kind == 'store' and e.fn is fn
+                stored = [e for e in rest[:4] if e.kind == 'store' and e.depth == 0
                           and e['value'] is node]
                 paths_ = {e['path'] for e in stored}
                 if 'self.target' not in paths_ or not any(
                         isinstance(e.node, ast.Name) for e in stored):
                     target_ok = flag('target', path, index)
-                after = [e for e in rest if e.kind == 'store' and e.fn is fn
+                after = [e for e in rest if e.kind == 'store' and e.depth == 0
                          and (e['path'] or '').endswith('.active_process')]
                 susp = [k for k, e in enumerate(rest) if is_suspension(e)]
                 if susp and not (after and rest.index(after[0]) < susp[0] and isinstance(
@@ -209,12 +209,12 @@ def _check_run_payload(check, an: Analysis):
                     active_ok = flag('active', path, index)
                 continue
             finished = True
-            handlers = [e for e in rest if e.kind == 'handler' and e.fn is fn]
+            handlers = [e for e in rest if e.kind == 'handler' and e.depth == 0]
             if exit_cls == 'ext:StopIteration':
                 n_stop += 1
                 fired = [(k, e) for k, e in enumerate(rest) if e.kind in ('call', 'enter')
-                         and e.fn is fn and is_call_to(e, 'succeed')]
-                failed = [e for e in rest if is_call_to(e, 'fail') and e.fn is fn]
+                         and e.depth == 0 and is_call_to(e, 'succeed')]
+                failed = [e for e in rest if is_call_to(e, 'fail') and e.depth == 0]
                 if len(fired) != 1 or failed or not handlers:
                     outcome_ok = flag('outcome', path, index)
                     continue
@@ -234,8 +234,8 @@ def _check_run_payload(check, an: Analysis):
             else:
                 n_fail += 1
                 fired = [(k, e) for k, e in enumerate(rest) if e.kind in ('call', 'enter')
-                         and e.fn is fn and is_call_to(e, 'fail')]
-                done = [e for e in rest if is_call_to(e, 'succeed') and e.fn is fn]
+                         and e.depth == 0 and is_call_to(e, 'fail')]
+                done = [e for e in rest if is_call_to(e, 'succeed') and e.depth == 0]
                 if len(fired) != 1 or done or not handlers or handlers[0].node.name is None:
                     outcome_ok = flag('outcome', path, index)
                     continue
